@@ -6,7 +6,7 @@ from ..kernels import *
 from . import spline as S
 
 LEVEL = 'other'
-BUILD = '<interp1d::strategies::cubic_spline::CubicSpline as interp1d::strategies::Interp1DStrategyBuilder>::build'
+BUILD = '<CubicSpline as Interp1DStrategyBuilder>::build'
 IX1 = 'ndarray::Dim<[usize; 1]>'
 
 
@@ -182,7 +182,7 @@ def run(chk):
                 m, out, ex = S.run_solve(lib, S.mixed(lk, rk), n)
                 n_eval += 1
                 chk.ob('R8.3', "solve_for_k Mixed{%s,%s} n=%s evaluates lane-wise" % (lk, rk, n or 'symbolic'), ex is None, ex.where if ex else '', 'lanewise-solve-%s-%s-%s' % (lk, rk, n), str(ex))
-        m, out, ex = S.run_solve(lib, Enum(S.IB, 'Periodic'), n, ends_equal=True)
+        m, out, ex = S.run_solve(lib, S.internal('Periodic'), n, ends_equal=True)
         n_eval += 1
         chk.ob('R8.3', "solve_for_k Periodic n=%s evaluates lane-wise" % (n or 'symbolic'), ex is None, ex.where if ex else '', 'lanewise-periodic-%s' % n, str(ex))
     for bc in ('NotAKnot', 'Natural', 'Clamped', 'Periodic', 'Individual'):
